@@ -486,6 +486,11 @@ def check_rest(ctx, F, tag, cfg):
     if cfg == "native":
         check_reinterpretation(ctx, F, "")
     mapped.check_views(ctx, F, tag, prefix="C08.R6")
+    # bytes that come from a file are never trusted to be UTF-8: no unchecked conversion anywhere in the crate (zero-count)
+    unchecked_utf8 = [(b.name, loc(t["sp"])) for b in F.all_bodies() if "::tests::" not in b.name for _, t in b.calls()
+                      if callee_name(t).split("::")[-1] in ("from_utf8_unchecked", "from_utf8_unchecked_mut")]
+    ctx.ob("C08.R6.no-unchecked-utf8", "crate" + tag, "src/", not unchecked_utf8, "who-may-call",
+           "str::from_utf8_unchecked calls (count must be 0: a mapped or loaded byte string is validated, not assumed): %s" % unchecked_utf8[:3], nontrivial=False, positive=True)
     # (borrowed) the guard of each view constructor covers what the view then reads: the length formula of the guard is the one
     # the view is built with (C13.R2) -- a guard that rounds the byte length down lets from_raw_parts run past the map
     import c13
@@ -545,7 +550,8 @@ def check_cursors(ctx, F, tag, prefix="C08.R4"):
         for fld in ("next", "limit"):
             if field_store_blocks(b, OI, fld) and not b.name.startswith("<bit_vector::OneIter<'a, T> as std::iter::"):
                 bad.append(b.name)
-    ctx.ob(prefix + ".cursor-stores", OI + tag, "src/bit_vector.rs", not bad, "who-may-store", "stores to OneIter.next/limit outside its Iterator impls: %s" % bad)
+    import inline
+    ctx.ob(prefix + ".cursor-stores", OI + tag, "src/bit_vector.rs", (not bad) if not inline.only_new(bad) else None, "who-may-store", "stores to OneIter.next/limit outside its Iterator impls: %s" % bad)
     # sparse OneIter: limit = Pos{high.len(), low.len()}
     SO = "sparse_vector::OneIter"
     k = 0
